@@ -17,6 +17,7 @@ OL_RETURN_VALUE: _ol_reserved_name = "__ol_retv_{}"
 OL_RETURN: _ol_reserved_name = "__ol_ret_{}"
 OL_NONLOCAL_DICT: _ol_reserved_name = "__ol_nonlocal_{}"
 OL_CLASS_DICT: _ol_reserved_name = "__ol_classnsp_{}"
+OL_WHILE_TMP: _ol_reserved_name = "__ol_while_{}"
 OL_CLASS_LOADER: _ol_reserved_name = "__ol_loader_{}"
 OL_CLASS_DECORATOR: _ol_reserved_name = "__ol_classdec_{}"
 OL_IMPORT_TMP: _ol_reserved_name = "__ol_mod_{}"
